@@ -1,0 +1,159 @@
+//go:build verif
+
+package goja
+
+// White-box accessors for verification property C20 (RegExp engine / fast-path independence,
+// UTF-16 exact indices).  Add-only; compiled only with -tags verif.
+
+import "fmt"
+
+// VerifC20Engine compiles (pattern, flags) exactly as the RegExp constructor does for a Go-string
+// pattern and reports which engine was selected: "re2" (Go regexp, linear time) or "regexp2"
+// (backtracking).  err != nil means the constructor would throw a SyntaxError.
+func VerifC20Engine(pattern, flags string) (engine string, err error) {
+	p, err := compileRegexp(pattern, flags)
+	if err != nil {
+		return "", err
+	}
+	if p.regexpWrapper != nil {
+		return "re2", nil
+	}
+	return "regexp2", nil
+}
+
+func verifC20Rx(v Value) *regexpObject {
+	if o, ok := v.(*Object); ok {
+		if rx, ok := o.self.(*regexpObject); ok {
+			return rx
+		}
+	}
+	return nil
+}
+
+// VerifC20EngineOf reports the engines attached to a RegExp object: "re2", "regexp2" or
+// "re2+regexp2" (Go regexp with the lazily created regexp2 twin), "" if v is not a RegExp.
+func VerifC20EngineOf(v Value) string {
+	rx := verifC20Rx(v)
+	if rx == nil || rx.pattern == nil {
+		return ""
+	}
+	switch {
+	case rx.pattern.regexpWrapper != nil && rx.pattern.regexp2Wrapper != nil:
+		return "re2+regexp2"
+	case rx.pattern.regexpWrapper != nil:
+		return "re2"
+	default:
+		return "regexp2"
+	}
+}
+
+// VerifC20Standard reports whether the optimised path would be taken for v (checkStdRegexp != nil).
+func VerifC20Standard(r *Runtime, v Value) bool {
+	o, ok := v.(*Object)
+	if !ok {
+		return false
+	}
+	return r.checkStdRegexp(o) != nil
+}
+
+// VerifC20Find is regexpPattern.findSubmatchIndex(s, start) on the pattern of RegExp object v
+// (no lastIndex protocol, no result array).  Returns nil indexes for "no match".
+func VerifC20Find(v Value, s Value, start int) (indexes []int, groups []string, ok bool) {
+	rx := verifC20Rx(v)
+	str, isStr := s.(String)
+	if rx == nil || !isStr {
+		return nil, nil, false
+	}
+	res := rx.pattern.findSubmatchIndex(str, start)
+	return append([]int(nil), res.indexes...), append([]string(nil), res.groups...), true
+}
+
+// VerifC20FindAll is regexpPattern.findAllSubmatchIndex(s, start, limit, sticky).
+func VerifC20FindAll(v Value, s Value, start, limit int, sticky bool) (all [][]int, ok bool) {
+	rx := verifC20Rx(v)
+	str, isStr := s.(String)
+	if rx == nil || !isStr {
+		return nil, false
+	}
+	for _, res := range rx.pattern.findAllSubmatchIndex(str, start, limit, sticky) {
+		all = append(all, append([]int(nil), res.indexes...))
+	}
+	return all, true
+}
+
+func verifC20Unicode(units []uint16) unicodeString {
+	buf := make([]uint16, len(units)+1)
+	buf[0] = 0xFEFF
+	copy(buf[1:], units)
+	return unicodeString(buf)
+}
+
+// VerifC20BuildPosMap runs buildPosMap over the lenient UTF-16 decoder of the given code units.
+func VerifC20BuildPosMap(units []uint16, start int) (posMap []int, runes []rune, mappedStart int, splitPair bool) {
+	s := verifC20Unicode(units)
+	return buildPosMap(&lenientUtf16Decoder{utf16Reader: s.utf16Reader()}, s.Length(), start)
+}
+
+// VerifC20PosMapReverseLookup is posMapReverseLookup.
+func VerifC20PosMapReverseLookup(posMap []int, pos int) (int, bool) {
+	return posMapReverseLookup(posMap, pos)
+}
+
+// VerifC20BuildUTF8PosMap runs buildUTF8PosMap; ok=false when it bails out (invalid UTF-16).
+func VerifC20BuildUTF8PosMap(units []uint16) (src, dst []int, str string, ok bool) {
+	pm, str := buildUTF8PosMap(verifC20Unicode(units))
+	if pm == nil {
+		return nil, nil, "", false
+	}
+	for _, it := range pm {
+		src = append(src, it.src)
+		dst = append(dst, it.dst)
+	}
+	return src, dst, str, true
+}
+
+// VerifC20PosMapGet is positionMap.get on a map given as parallel slices; found=false when get panics.
+func VerifC20PosMapGet(src, dst []int, x int) (res int, found bool) {
+	pm := make(positionMap, len(src))
+	for i := range src {
+		pm[i] = positionMapItem{src: src[i], dst: dst[i]}
+	}
+	defer func() {
+		if r := recover(); r != nil {
+			res, found = 0, false
+		}
+	}()
+	return pm.get(x), true
+}
+
+// VerifC20ParseFlags runs compileRegexp("a", flags) and reports acceptance and the six flag booleans
+// in the order g i m s u y.
+func VerifC20ParseFlags(flags string) (ok bool, bits [6]bool) {
+	p, err := compileRegexp("a", flags)
+	if err != nil {
+		return false, bits
+	}
+	return true, [6]bool{p.global, p.ignoreCase, p.multiline, p.dotAll, p.unicode, p.sticky}
+}
+
+// VerifC20AdvanceStringIndex is advanceStringIndex over the given code units.
+func VerifC20AdvanceStringIndex(units []uint16, pos int, unicode bool) int {
+	return advanceStringIndex(StringFromUTF16(units), pos, unicode)
+}
+
+// VerifC20String builds a JS string from raw UTF-16 code units (lone surrogates allowed).
+func VerifC20String(units []uint16) Value { return StringFromUTF16(units) }
+
+// VerifC20Units returns the UTF-16 code units of a JS string value.
+func VerifC20Units(v Value) ([]uint16, error) {
+	s, ok := v.(String)
+	if !ok {
+		return nil, fmt.Errorf("not a string: %T", v)
+	}
+	n := s.Length()
+	out := make([]uint16, n)
+	for i := 0; i < n; i++ {
+		out[i] = s.CharAt(i)
+	}
+	return out, nil
+}
